@@ -30,8 +30,8 @@ impl PivotReversalStrategy {
 		// C08: the constant state for this candle's high and low (pivot_const_step)
 		r is Ok ==> r->Ok_0.const_state(candle.high_s(), candle.low_s()),
 //@replace Ok(Self::Instance { ==> Ok(PivotReversalStrategyInstance {
-//@replace UpperReversalSignal::new(cfg.left, cfg.right, &candle.high())? ==> UpperReversalSignal::new3(cfg.left, cfg.right, &candle.high())?
-//@replace LowerReversalSignal::new(cfg.left, cfg.right, &candle.low())? ==> LowerReversalSignal::new3(cfg.left, cfg.right, &candle.low())?
+//@replace UpperReversalSignal::new( ==> UpperReversalSignal::new3(
+//@replace LowerReversalSignal::new( ==> LowerReversalSignal::new3(
 //@end
 }
 // What the code does (NOT the documented rule, see the C06 known finding): the pivot detectors run on highs / lows; the price of the last
